@@ -5,10 +5,13 @@ from gen import G, Z, sx, ohg_types, lohg_types, BACKENDS
 
 import os
 QUICK_SCALE = int(os.environ.get("VERIF_QUICK_SCALE", "6"))
+ESCALATE = int(os.environ.get("VERIF_ESCALATE", "2"))
 
 
 def N(tier, quick, thorough):
     # the quick tier runs QUICK_SCALE times the base number of random iterations (a case costs about a millisecond)
+    if tier == "escalated":     # the source differs from the fingerprint: the largest random stream
+        return thorough * ESCALATE
     return min(quick * QUICK_SCALE, thorough) if tier == "quick" else thorough
 
 
@@ -244,7 +247,7 @@ def C07(g, tier):
                     yield sx(["a_scatter", bk, xs, list(idx), 3]), n >= 2
     # exhaustive: all edge lists with <= 3 edges over <= 3 nodes
     for nn in range(4):
-        for ne in range(4 if tier == "thorough" else 3):
+        for ne in range(4 if tier in ("thorough", "escalated") else 3):
             for s in itertools.product(range(nn), repeat=ne):
                 for t in itertools.product(range(nn), repeat=ne):
                     for bk in BACKENDS:
@@ -948,7 +951,7 @@ def all_small_histories(maxlen):
 
 
 def C11(g, tier):
-    if tier == "thorough":
+    if tier in ("thorough", "escalated"):
         for cs in all_small_histories(3):
             yield sx(["lax_history", LEMPTY, cs]), any(c[0].startswith("delete") or c[0].startswith("h_delete") for c in cs)
     else:
